@@ -14,6 +14,8 @@ from ..aggdriver import AggWorld
 
 ROLES = ["r1", "r2", "r3"]
 UNITS = {"open": [], "one": ["r1"], "two": ["r1", "r2"]}           # unit key -> required roles
+EARLIER_ROLES = {"open": ["r3"], "one": [], "two": ["r3"]}       # required roles of an earlier session of the online units
+RECONNECTED = {"closed-since": ([], ["r1"]), "moved-since": (["r2"], ["r1"]), "opened-since": (["r1"], [])}
 USER_ROLES = [[], ["r1"], ["r2"], ["r3"], ["r1", "r3"], ["r2", "r3"]]
 # offline units: key -> the required roles of their successive sessions (the last one counts)
 OFFLINE = {"same": [["r1"], ["r1"]], "moved": [["r1"], ["r2"]], "opened": [["r1", "r2"], []], "closed": [[], ["r2"]],
@@ -60,8 +62,18 @@ def _world(scratch):
     ids, runs = {}, {}
     for key, req in UNITS.items():
         comp = f"c-{key}"
-        world.register(comp, "uod")
         eid = world.agg.create_engine_id(world.register_msg(comp, "uod"))
+        # an earlier session of the same engine under other required roles (its UOD was changed since): what the database
+        # remembers of that session must not decide who sees the unit now
+        world.register(comp, "uod")
+        world.connect_ws(eid)
+        world.uod_info(eid, [SECRET_TAG], roles=EARLIER_ROLES[key])
+        world.send(EM.RunStartedMsg(engine_id=eid, run_id=f"run-{key}-earlier", started_tick=0.5))
+        world.send(EM.RunStoppedMsg(engine_id=eid, run_id=f"run-{key}-earlier", runlog=Mdl.RunLog.empty(),
+                                    method_state=Mdl.MethodState(started_line_ids=[], executed_line_ids=[], injected_line_ids=[],
+                                                                 failed_line_ids=[]), archive=None, archive_filename=None))
+        world.disconnect_ws(eid)
+        world.register(comp, "uod")
         ids[key] = eid
         world.connect_ws(eid)
         world.uod_info(eid, [SECRET_TAG], roles=req)
@@ -98,6 +110,21 @@ def _world(scratch):
             world.disconnect_ws(eid)
         offline[key] = (eid, sessions[-1])
     world.offline = offline
+    # units that are online again under NEW required roles and have not run since: the database row of their last session still
+    # carries the old roles; the live engine's roles decide
+    reconnected = {}
+    for key, (before, now) in RECONNECTED.items():
+        comp = f"c-re-{key}"
+        eid = world.agg.create_engine_id(world.register_msg(comp, "uod"))
+        world.register(comp, "uod")
+        world.connect_ws(eid)
+        world.uod_info(eid, [SECRET_TAG], roles=before)
+        world.disconnect_ws(eid)
+        world.register(comp, "uod")
+        world.connect_ws(eid)
+        world.uod_info(eid, [SECRET_TAG], roles=now)
+        reconnected[key] = (eid, now)
+    world.reconnected = reconnected
     return world, dbfile, ids, runs
 
 
@@ -169,7 +196,8 @@ def _collect(ctx, scratch):
     # listings
     for roles in USER_ROLES:
         current["roles"] = set(roles)
-        resources = [{"id": ids[k], "required": req} for k, req in UNITS.items()]
+        resources = [{"id": ids[k], "required": req} for k, req in UNITS.items()] + \
+            [{"id": eid, "required": req} for eid, req in world.reconnected.values()]
         off = [{"id": eid, "required": req} for eid, req in world.offline.values()]
         for path in ("/api/process_units", "/api/process_units/all_process_values"):
             resp = client.get(path, headers={"X-Identity": ",".join(roles)})
